@@ -166,6 +166,8 @@ def compare_results(ra, rb, rtol=1e-9, atol=1e-9, skip_cols=(), colmap=None, gas
                 continue
             rt = max(rtol, LAGGING_COLS.get(c, 0.0), GAS_VELOCITY_COLS.get(c, 0.0) if gas else 0.0)
             at = max(atol, 1e-7) if c in GAS_VELOCITY_COLS else atol
+            if zero_flow and c.startswith("normfactor"):
+                rt = max(rt, 1e-5)  # a branch without flow has no inlet: its end temperatures are defined up to tol_T only
             if np.isnan(va) != np.isnan(vb) or abs(va - vb) > at + rt * max(abs(va), abs(vb)):
                 diffs.append((eid, c, va, vb))
     return diffs
